@@ -4,6 +4,7 @@
 * ``ir``        : loop-nest IR of every ``prange`` region (worksharing loop, enclosing and
                   inner sequential loops, shared accesses, private / reduction scalars)
 * ``emit``      : IR -> TLA+ module ``Omp_<kernel>`` (extends spec/OmpTemplate.tla)
+* ``proj``      : the projector expression of ``summate_incompr`` -> exact rationals of Kernels.tla
 * ``artefact``  : what the generated C says (embedded source comments, ``#pragma omp``
                   clauses) and the OpenMP scratch build
 """
